@@ -170,4 +170,9 @@ theorem litApi_sound : EvalSound litApi notInst where
   single e hg hm N call ρ k env σ σ' vs h :=
     canReturnMultiple_sound call ρ k env e hm hg σ σ' vs h
 
+theorem litApi_total : EvalTotal litApi where
+  decided e b ht N call ρ k env σ σ' vs h := litApi_sound.truthy e b (by cases e <;> simp [EvalApi.isTruthy, litApi, LuaKind.isTruthy] at ht <;> trivial) ht call ρ k env σ σ' vs h
+  pureTotal e b ht _ N call ρ k env σ := by
+    cases e <;> simp [EvalApi.isTruthy, litApi, LuaKind.isTruthy] at ht <;> (right; simp [evalE])
+
 end DarkluaModel.Rules
